@@ -1201,6 +1201,24 @@ def r_canonkey(P, chk):
             if why:
                 tainted[(id(d), v)] = why
                 changed = True
+    # ... and realpath fails (NULL) for a folder that does not exist: on that outcome its result must not replace the name in use
+    # (a NULL search folder makes the function give up before it has looked at a single marker, absolute ones included)
+    def decide_null(t):
+        r = decide(t)
+        return None if r is None else not r
+    dead = edpe_blocks(f, "?none", 0, extra_decide=decide_null)
+    for x in f.walk():
+        if x["k"] == "BinaryOperator" and x["op"] == "=":
+            r_ = strip(x["c"][1])
+            if r_ is not None and r_["k"] == "DeclRefExpr" and r_["n"] in canon:
+                sx = stmt_of(x)
+                ok = sx is None or pos[sx["i"]][0] not in dead
+                chk.obligation(rid, "%s: `%s` runs only where %s is known to be non-NULL" % (f.where(x), f.src(x)[:60], r_["n"]), ok)
+                if not ok:
+                    chk.violation(rid, "pushpop:canonical-null:%s" % key(x["c"][0]), f.where(x),
+                                  "`%s` is reachable with %s == NULL (realpath failed: the folder does not exist): the name in use is "
+                                  "replaced by NULL, the function gives up before scanning for markers and includes that do not depend "
+                                  "on the folder (absolute paths) are left unsubstituted" % (f.src(x)[:60], r_["n"]))
     sinks = [(v, d) for v, d, _, _ in defs if v in roots]
     chk.floor(rid, len(sinks), 2, "statements that build the pushed name")
     chk.obligation(rid, "the recursive call carries the pushed name into parameter(s) %s" % (sorted(carried) or "none"), True, nontrivial=bool(carried))
